@@ -13,7 +13,7 @@ SVC = ["0x01", "0x0e", "0x4c", "0x10", "0x5b"]
 contract(
     id="generic.connected", func="pycomm3.cip_driver.CIPDriver.generic_message",
     call="d.generic_message(service=svc, class_code=class_code, instance=instance, attribute=attribute, request_data=data, name='x')",
-    bind={"svc": SVC, "status": ["0", "5"], "path": ["'10.0.0.1'"]}, params=dict(COMMON),
+    bind={"svc": SVC, "status": ["0", "5", "6"], "path": ["'10.0.0.1'"]}, params=dict(COMMON),      # 6 = partial transfer: an error for these services
     setup=DRV + ["t = spec.env.Transport([spec.msgrouter.connected_reply(svc, status, payload)])", "d._sock = t"],
     ensures=["len(t.sent) == 1",
              "spec.encap.try_parse_frame(t.sent[0])[3][0] == 'connected' and spec.encap.try_parse_frame(t.sent[0])[3][1] == cid",
